@@ -75,7 +75,13 @@ fn main() {
                 "provides" => b.provides(payload(arg, i)),
                 "requires" => {
                     let mut req = Require::new(payload(arg, i));
-                    if arg.contains("metadata") { req.metadata(tagged_table(&md)).expect("metadata"); }
+                    if arg.contains("metadata") {
+                        // set twice: the last call is the metadata, nothing of an earlier call survives
+                        let mut first = toml::Table::new();
+                        first.insert("set-by-an-earlier-call".into(), toml::Value::Boolean(true));
+                        req.metadata(first).expect("metadata");
+                        req.metadata(tagged_table(&md)).expect("metadata");
+                    }
                     b.requires(req)
                 }
                 _ => b.or(),
@@ -190,7 +196,7 @@ fn main() {
             other => out.problems.push(Mismatch { signature: "store read back differs".into(), detail: format!("{other:?}"), case: json!({"metadata": md}) }),
         }
         // package descriptor
-        let uris = ["libcnb:verif/x", "../rel/some-path", "/abs/path", "docker://docker.io/a/b:1", "https://e.com/x.cnb?a=1#f", "urn:cnb:registry:a/b@1", "docker://Registry.Example.COM:5000/a/../b%7ec/./y:1", "https://Example.com/%7Euser/x.cnb"];
+        let uris = ["libcnb:verif/x", "../rel/some-path", "/abs/path", "docker://docker.io/a/b:1", "https://e.com/x.cnb?a=1#f", "urn:cnb:registry:a/b@1", "docker://Registry.Example.COM:5000/a/../b%7ec/./y:1", "https://Example.com/%7Euser/x.cnb", "../pool/example?rev=2", "/builds/run#42/buildpacks/example"];
         let deps: Vec<&str> = (0..r.usize(0..4)).map(|_| uris[r.usize(..uris.len())]).collect();
         let os = ["linux", "windows"][r.usize(..2)];
         let bp_uri = [".", "./sub", "docker://x/y", "https://Example.COM/a/./b/../c.cnb"][r.usize(..4)];
